@@ -15,10 +15,13 @@ theorem ctor_shape_ok :
     ctors.all (fun c => c.2.1 && c.2.2.1 && locks.contains (c.2.2.2, true)) = true := by
   decide +kernel
 
-/-- C20 for the program in /repo: it is `step true`, so `C20.agreement` is about it. -/
-theorem shipped_constructors_agree (sched : List Nat) (t u a b : Nat)
-    (ha : ((Threads.run true {} sched).thr t).ret = some a) (hb : ((Threads.run true {} sched).thr u).ret = some b) :
-    a = b ∧ (Threads.run true {} sched).known = some a :=
-  C20.agreement sched t u a b ha hb
+/-- C20 for the program in /repo: it is `step .call` (lookup, creation and initialisation under one
+    lock), so `C20.agreement` is about it — for objects registered by `__new__` (`_known`) and for
+    base units, registered by `__init__` (`_by_name`). -/
+theorem shipped_constructors_agree (regAtInit : Bool) (sched : List Nat) (t u a b : Nat)
+    (ha : ((Threads.run .call regAtInit {} sched).thr t).ret = some a)
+    (hb : ((Threads.run .call regAtInit {} sched).thr u).ret = some b) :
+    a = b ∧ (Threads.run .call regAtInit {} sched).reg = some a :=
+  C20.agreement regAtInit sched t u a b ha hb
 
 end Measured.Obligations
